@@ -296,7 +296,8 @@ class C20(Property):
                 xs, ys = rats(t[1]), rats(t[2])
                 pp = lambda s: None if s == "none" else [Fraction(x) for x in s.split(":")]
                 first, last = pp(t[4]), pp(t[5])
-                ok = (close_seq(xs, impl[1]) and close_seq(ys, impl[2]) and int(t[3]) == impl[3] and impl[6]
+                # an axis with zero positions makes the other axis unobservable in the (n0, n1, 2) array
+                ok = ((close_seq(xs, impl[1]) or not ys) and (close_seq(ys, impl[2]) or not xs) and int(t[3]) == impl[3] and impl[6]
                       and (first is None) == (impl[4] is None) and (first is None or close_seq(first, impl[4]))
                       and (last is None or close_seq(last, impl[5])))
             elif kind == "gaxes":
